@@ -643,8 +643,20 @@ impl SvgElement {
             }
             result
         }
+        // `surround`, `inside` and `margin` place shapes; on the SVG elements they
+        // don't apply to (a group, a link, the root...) they are not output either.
+        // (Foreign content - say HTML in a foreignObject - is left as it is.)
+        let layout_only = self.is_container_element()
+            || self.is_graphics_element()
+            || matches!(
+                self.name.as_str(),
+                "clipPath" | "foreignObject" | "tspan" | "textPath"
+            );
         let mut bs = BytesStart::new(self.name);
         for (k, v) in &self.attrs {
+            if layout_only && matches!(k.as_str(), "surround" | "inside" | "margin") {
+                continue;
+            }
             bs.push_attribute(Attribute::from((k.as_bytes(), escape_attr(v).as_bytes())));
         }
         if !self.classes.is_empty() {
